@@ -322,3 +322,57 @@ func VH14e_burst() {
 	verif.Reach("reconnected")
 	sock.Close()
 }
+
+// VH14g_slow_hook: the application's pipe event hook is slow. A dialer connects;
+// while its Attaching or Attached callback is still running (parked on a gate
+// the harness holds), the peer drops the fresh connection - as a PAIR socket
+// that already has a peer does. Then the callback returns. The dialer must
+// still be at work: a redial is pending, fires no sooner than the reconnect
+// time after the loss, and establishes a connection that stays.
+func VH14g_slow_hook() {
+	lab := "C14/slow-hook"
+	rp := &okProto{}
+	sock := protocol.MakeSocket(rp)
+	vt.Install()
+	gate := make(chan struct{})
+	var slowIn mangos.PipeEvent = mangos.PipeEventAttached
+	if verif.Choice("slow-in", 2) == 1 {
+		slowIn = mangos.PipeEventAttaching
+	}
+	held := 0
+	sock.SetPipeEventHook(func(ev mangos.PipeEvent, p mangos.Pipe) {
+		if ev == slowIn && held == 0 {
+			held++
+			<-gate
+		}
+	})
+	asynch := verif.Choice("asynch", 2) == 1
+	r := 100 * time.Millisecond
+	d, err := sock.NewDialer("vt://peer", map[string]interface{}{
+		mangos.OptionReconnectTime: r, mangos.OptionMaxReconnectTime: time.Duration(0), mangos.OptionDialAsynch: asynch})
+	verif.Assert(err == nil, lab+"/new-dialer")
+	td := vt.T.Dialers[0]
+	dg := verif.Go("dial", func() { d.Dial() })
+	verif.Quiesce()
+	verif.Assert(held == 1 && len(td.Pipes) == 1, lab+"/hook-not-reached")
+	if held != 1 || len(td.Pipes) != 1 {
+		return
+	}
+	// the peer drops the connection while the callback is still running
+	td.Pipes[0].Drop()
+	lostAt := verif.Now()
+	verif.Quiesce()
+	close(gate)
+	verif.Quiesce()
+	verif.Assert(dg.Done(), lab+"/dial-still-blocked")
+	have := func() bool { return len(td.Pipes) > 0 && !td.Pipes[len(td.Pipes)-1].Closed }
+	for i := 0; i < 4 && !have(); i++ {
+		verif.Assert(verif.FireTimer(), lab+"/dialer-gave-up-after-a-connection-was-lost-during-a-slow-callback")
+	}
+	verif.Assert(have(), lab+"/connection-not-re-established")
+	if len(td.Dials) >= 2 {
+		verif.Assert(td.Dials[1] >= lostAt+r, lab+"/redial-sooner-than-the-reconnect-time-after-the-loss")
+	}
+	verif.Reach("slow-hook-reconnected")
+	sock.Close()
+}
